@@ -371,3 +371,34 @@ def register_create_netlist(method):
         cable._definition = self
 """), None),
     )
+
+# ---------------------------------------------------------------- third wave: cascade guards, stored-pin test
+add("C14",
+    Mutant("R1d remove_pins_from loops over the public remove_pin without establishing membership (seeded C14-w3C)",
+           (PT, """        assert all(isinstance(x, InnerPin) and x.port == self for x in exclude_pins), (
+            "All pins to remove must be " "InnerPins and belong to the port"
+        )
+        for pin in exclude_pins:
+            self._remove_pin(pin)
+        self._pins = list(x for x in self._pins if x not in exclude_pins)""",
+            """        assert all(isinstance(x, InnerPin) for x in exclude_pins), "All pins to remove must be InnerPins"
+        for pin in exclude_pins:
+            self.remove_pin(pin)"""), "R1d|spydrnet/ir/port.py:Port.remove_pins_from|Port.remove_pin"),
+    Mutant("R1d twin: the same loop over remove_pin, with membership asserted for all pins first",
+           (PT, """        for pin in exclude_pins:
+            self._remove_pin(pin)
+        self._pins = list(x for x in self._pins if x not in exclude_pins)""",
+            """        for pin in exclude_pins:
+            self.remove_pin(pin)"""), None),
+)
+add("C01",
+    Mutant("O2 disconnect_pins_from tests the handle's wire instead of the stored pin's (seeded C19-w3B)",
+           (W, "                    or instance.pins[inner_pin].wire is not self", "                    or pin.wire is not self"),
+           "Wire.disconnect_pins_from|wire-pin|bulk-guard"),
+    Mutant("O2 disconnect_pins_from: inner-pin branch no longer tests the wire",
+           (W, """                if pin.wire != self:
+                    all_pins_can_be_disconnected = False
+                    break""", """                if pin.wire is None:
+                    all_pins_can_be_disconnected = False
+                    break"""), "Wire.disconnect_pins_from|wire-pin|bulk-guard"),
+)
